@@ -12,6 +12,8 @@ dst = '/verif/seeded/' + sid
 def sh(cmd, **kw):
     return subprocess.run(cmd, shell=True, capture_output=True, text=True, **kw)
 head = sh('git -C /repo rev-parse --short HEAD').stdout.strip()
+if not os.path.isdir(wt):
+    sh('git -C /repo worktree add --detach %s' % wt)      # scratch worktree; remove it afterwards (git -C /repo worktree remove --force)
 sh('git -C %s reset -q --hard && git -C %s clean -fdq && git -C %s checkout -q --detach %s' % (wt, wt, wt, head))
 patch = os.path.join(src, 'patch.diff')
 a = sh('git -C %s apply --3way %s' % (wt, patch))
